@@ -227,6 +227,8 @@ def prop(spec, rec):
         compare(ref, got, what)
     if spec.get("store_history"):
         labels.add("schedule_history_on")
+    if spec["scheduler"].get("estimator"):
+        labels.add("sorted_scheduler_with_estimator")
     if any(s["battery"]["model"] != "ideal" and s["battery"].get("noise", 0) > 0 for s in spec["sessions"]):
         labels.add("noise")
     rec.count("crash_points", len(points))
@@ -246,6 +248,9 @@ def cases(draw, all_points=False):
         pts = draw(st.lists(st.tuples(st.sampled_from(menu), st.sampled_from(["resume", "json", "json"])), min_size=1, max_size=3, unique=True))
         spec["crash_points"] = [list(p) for p in pts]
     spec["json_via"] = draw(st.sampled_from(["string", "path", "buffer"]))
+    if spec["scheduler"]["kind"] in ("greedy", "rr") and draw(st.booleans()):
+        # a stateful upper-bound estimator rides along (it holds an interface of its own)
+        spec["scheduler"]["estimator"] = {"up": draw(st.sampled_from([1, 0.5, 2])), "down": draw(st.sampled_from([1, 0.5, 3])), "inc": draw(st.sampled_from([1, 0.5, 2]))}
     return spec
 
 
